@@ -315,7 +315,7 @@ fn main() {
         "evaluations": cn.instances.load(Ordering::Relaxed),
         "distinct_nontrivial": cn.nontrivial.load(Ordering::Relaxed),
         "programs": cn.types.load(Ordering::Relaxed),
-        "rule": "types = every type expression of depth <=1 (thorough <=2) over 18 scalars, 46 named types (structs with serde/schemars attributes, manual schemas with exclusive bounds / multipleOf / const / not / uniqueItems / min-maxProperties / x- extensions / examples, enums in all four serde representations incl. untagged with overlapping alternatives, recursive types, newtype, unit) and 4 containers, each mounted as request and response body of a real endpoint (quick: plus every container-in-container shape over 5 element types); three of the named types are also the types of query and path parameters of one more endpoint. S_src = schemars root schema under SchemaSettings::openapi3(); S_doc = what the real openapi().json() contains. Oracle 1: every annotation (title, description, format, default, nullable, deprecated, readOnly/writeOnly, example, x-*) of S_src occurs in S_doc. Oracle 2: RefSchema(S_src, i) == RefSchema(S_doc, i) for the canonical valid instance and all single (thorough and small types: all double) point-mutations of it over the schema's own constraint atoms. distinct_nontrivial = types for which at least one mutated instance was rejected by a constraint.",
+        "rule": "types = every type expression of depth <=1 (thorough <=2) over 18 scalars, 48 named types (structs with serde/schemars attributes, manual schemas with exclusive bounds / multipleOf / const / not / uniqueItems / min-maxProperties / x- extensions / examples, enums in all four serde representations incl. untagged with overlapping alternatives, recursive types, newtype, unit) and 4 containers, each mounted as request and response body of a real endpoint (quick: plus every container-in-container shape over 5 element types); three of the named types are also the types of query and path parameters of one more endpoint. S_src = schemars root schema under SchemaSettings::openapi3(); S_doc = what the real openapi().json() contains. Oracle 1: every annotation (title, description, format, default, nullable, deprecated, readOnly/writeOnly, example, x-*) of S_src occurs in S_doc. Oracle 2: RefSchema(S_src, i) == RefSchema(S_doc, i) for the canonical valid instance and all single (thorough and small types: all double) point-mutations of it over the schema's own constraint atoms. distinct_nontrivial = types for which at least one mutated instance was rejected by a constraint.",
         "types": entries.len(), "types_mounted": mounted.len(), "types_without_canonical_instance": cn.no_canonical.load(Ordering::Relaxed),
         "valid_instances": cn.valid_instances.load(Ordering::Relaxed),
         "oracle_audit": oracle_audit,
